@@ -137,12 +137,17 @@ const CRLF: &[u8] = b"\r\n";
 /// Replaces all CRLF with LF
 pub fn replace_crlf<'a>(bytes: &'a [u8]) -> Cow<'a, [u8]> {
     if let Some(index) = bytes.windows(2).position(|window| window == CRLF) {
-        [
-            Cow::from(&bytes[0..index]),
-            replace_crlf(&bytes[index + 1..]),
-        ]
-        .concat()
-        .into()
+        // single pass over the remainder: drop every CR that is followed by LF
+        let mut replaced = Vec::with_capacity(bytes.len());
+        replaced.extend_from_slice(&bytes[0..index]);
+        let rest = &bytes[index..];
+        for (offset, byte) in rest.iter().enumerate() {
+            if *byte == b'\r' && rest.get(offset + 1) == Some(&b'\n') {
+                continue;
+            }
+            replaced.push(*byte);
+        }
+        replaced.into()
     } else {
         bytes.into()
     }
